@@ -14,6 +14,7 @@ package main
 
 import (
 	"fmt"
+	"os"
 	"strings"
 
 	"github.com/semihalev/sdns/internal/verif/vlib"
@@ -49,4 +50,13 @@ func fail(sig, format string, a ...any) string {
 	return "FAIL sig=" + sig + " " + fmt.Sprintf(format, a...)
 }
 
-func main() { vlib.Main(&vlib.Driver{Facts: facts, Exec: exec, Gen: gen}) }
+func main() {
+	// the recovery middleware prints every recovered panic with its stack to
+	// os.Stderr; scripted panics are part of the workload
+	if os.Getenv("VERIF_LOG") == "" {
+		if f, err := os.OpenFile(os.DevNull, os.O_WRONLY, 0); err == nil {
+			os.Stderr = f
+		}
+	}
+	vlib.Main(&vlib.Driver{Facts: facts, Exec: exec, Gen: gen})
+}
